@@ -123,6 +123,37 @@ def pool_rule(ctx):
             # the popped buffer is asserted empty (holds by invariant I) - presence of the assertion is not required,
             # what matters is that nothing else reads the pool
             ctx.ob('POOLSITES', key, True, short_loc(t.get('span')), 'pop from pool %s' % pool, nontrivial=False)
+            # ... where the assertion is written, it is the *non-empty* buffer that fails it: every buffer of the pool is
+            # empty (invariant I), so a test the other way round panics on the first reuse of a configuration
+            from ..inventory import panic_sites
+            wrong = []
+            # (the test may sit in a closure mapped over the popped Option: `.pop().map(|v| { assert!(v.is_empty()); v })`)
+            cands = [(b, eb, et) for eb, et in b.calls() if strip_generics(cname(et)).endswith('Vec::is_empty') and any(c_ is t for c_ in origin(b, et['args'][0]).calls)]
+            for mb, mt in b.calls():
+                if strip_generics(cname(mt)).endswith(('Option::map', 'Option::inspect')) and len(mt['args']) > 1 and any(c_ is t for c_ in origin(b, mt['args'][0]).calls):
+                    for a_ in origin(b, mt['args'][1]).atoms:
+                        cb_ = f.bodies.get(a_[1]) if a_[0] == 'closure' else None
+                        if cb_ is not None:
+                            cands += [(cb_, eb, et) for eb, et in cb_.calls() if strip_generics(cname(et)).endswith('Vec::is_empty') and origin(cb_, et['args'][0]).params() == {2}]
+            for x_, eb, et in cands:
+                pan = {pb for _, pb, _, _ in panic_sites(x_)}
+                sw_ = et.get('target')
+                while sw_ is not None and x_.term(sw_)['k'] == 'goto':
+                    sw_ = x_.term(sw_)['target']
+                if sw_ is None or x_.term(sw_)['k'] != 'switch':
+                    continue
+                # which edge stands for "the buffer is empty": through any negation of the flag
+                cond_ = switch_condition(x_, x_.switch_info(sw_))
+                neg_ = False
+                while cond_[0] == 'not':
+                    neg_, cond_ = not neg_, cond_[1]
+                zero_ = [x['bb'] for x in x_.term(sw_)['targets'] if x['v'] == 0]
+                empty_edge = (zero_[0] if zero_ else None) if neg_ else x_.term(sw_)['otherwise']
+                other_edge = x_.term(sw_)['otherwise'] if neg_ else (zero_[0] if zero_ else None)
+                if empty_edge is not None and empty_edge != other_edge and any(pb in x_.dominated_by(empty_edge) for pb in pan):
+                    wrong.append(short_loc(et.get('span')))
+            ctx.ob('POOLSITES', key + '/empty-buffer-passes-the-assertion', not wrong, short_loc(t.get('span')),
+                   'assertions on the popped buffer that fail when it IS empty: %s' % (wrong or 'none'))
         elif meth == 'push':
             npush += 1
             ok, why = cleared_before(b, bb, t['args'][1], f)
